@@ -6,7 +6,7 @@ sc3's writer or reader.  It only *projects* bytes to a structure; it decides not
     parse(data) -> dict(
         ok        1 when one complete version-2 file with exactly the declared defs was read and
                   every byte was consumed, else 0
-        err       '' or the reason the reader stopped, off = byte offset where it stopped
+        err       '' or the reason the reader stopped (errc: its short class), off = byte offset where it stopped
         total     len(data), consumed = bytes consumed
         magic, version, ndefs
         defs      [ def ... ]   (as many as could be read)
@@ -121,7 +121,7 @@ def _read_def(r, out):
 
 def parse(data):
     r = _R(data)
-    res = dict(ok=0, err='', off=0, total=len(r.d), consumed=0, magic='', version=-1, ndefs=-1, defs=[])
+    res = dict(ok=0, err='', errc='', off=0, total=len(r.d), consumed=0, magic='', version=-1, ndefs=-1, defs=[])
     try:
         res['magic'] = r.take(4, 'magic').decode('latin-1')
         if res['magic'] != 'SCgf':
@@ -139,6 +139,7 @@ def parse(data):
         res['ok'] = 1
     except _Stop as e:
         res['err'] = str(e)
+        res['errc'] = str(e).split(':')[0].split(' needs')[0].replace(' ', '-')[:24]     # short class of the error
     res['off'] = r.p
     res['consumed'] = r.p
     return res
